@@ -128,6 +128,12 @@ func (x *Exec) emit(st *State, kind, detail, clause string, props []string, goal
 	if x.dry != nil {
 		return
 	}
+	if x.con != nil && x.con.Unchecked != nil {
+		if why, ok := x.con.Unchecked[kind]; ok {
+			x.noteLib("UNCHECKED in " + x.fnName() + " (" + kind + " obligations not generated): " + why)
+			return
+		}
+	}
 	if goal.S == "true" {
 		// still record so the obligation exists (trivially discharged by construction)
 	}
